@@ -100,7 +100,7 @@ def check_variable_set(ctx: Check, tree: Tree) -> None:
 
     # R-FALSYZERO: L = 0 (an S-wave) is a value, None is "not specified": only `is None` tells them apart
     hazards, reads = falsy_zero_hazards(tree, "ampform.helicity")
-    if reads < 3:
+    if reads < 2:
         raise AnalysisError(f"R-FALSYZERO: only {reads} reads of the optional quantum numbers of an interaction found in ampform.helicity (5 confirmed)")
     for hfn, node, src in hazards:
         ctx.violation("R-FALSYZERO", f"{hfn.qual}::truth-test::{src}", tree.loc(node), f"`{unparse(node)[:60]}` is tested for truth, but it is `{src}`: 0 (S-wave / spin 0) is a value and must not be treated like None",
